@@ -7,7 +7,8 @@ package jsonSubProto
 
 // C12: a frame naming an unregistered transfer filter is refused
 //@ func (*jsonSubProto).Unpack
-//@   property C12 C04
+//@   property C12 C04 C15
+//@   requires msgOwnStatus(as(m, type(*socket.message)))
 //@   ensures[status-field-decoded] @C04 result == nil ==> as(m, type(*socket.message)).status != nil && as(m, type(*socket.message)).status.#fromWire
 //@   requires[no-pending-refusal] !ghost.appendFailed
 //@   ensures[refusal-propagated] result == nil ==> !ghost.appendFailed
